@@ -398,6 +398,9 @@ Secure == /\ phase = "secure"
 Verify == /\ phase = "verify"
           /\ IF /\ req.tok.signer \in {"authorised", "authorised-kid-thumb"}
                 /\ req.tok.ser \notin {"flattened", "general2af"}
+                \* keyFitsSigningAlgorithm (repair of F19-alg-curve): the label ES256 passes credentialIsSecure, but the
+                \* authorised key must be on the curve of the algorithm (before the repair jwx verified ES256 with a P-384 key)
+                /\ req.tok.alg # "p384/ES256"
              THEN Next1("validate") ELSE Deny
 
 \* jwt.Validate(WithAudience): exp, nbf, iat against the clock (NumericDates are truncated to whole seconds by jwx; a
